@@ -315,3 +315,269 @@ def c01():
 
 
 CHECKS["C01"] = c01
+
+
+# =========================================================================== C12
+STATS_SCHEMA = """package main
+
+type Rec struct {
+	I32 int32
+	I64 int64
+	U32 uint32
+	U64 uint64
+	F32 float32
+	F64 float64
+	S   string
+
+	OI32 *int32
+	OI64 *int64
+	OU32 *uint32
+	OU64 *uint64
+	OF32 *float32
+	OF64 *float64
+	OB   *bool
+	OS   *string
+
+	RI32 []int32
+	RU64 []uint64
+	RF32 []float32
+	RS   []string
+}
+"""
+
+
+def export_patterns(max_len, ntok):
+    from wfam import _export
+    rows = _export("ExportPat", {"OutFile": '"pat.ndjson"', "MaxLen": max_len, "NTok": ntok}, "pat.ndjson", tag="pat")
+    pats = rows[0]["patterns"]
+    pats.sort(key=lambda p: (len(p), p))
+    return pats
+
+
+def c12():
+    from wfam import Program
+    ck = Check("C12", "model_checking")
+    q = ck.quick()
+    mc = model_check("MC_Stats", {"MaxLen": 3 if q else 4, "NRank": 3, "SentinelBug": "FALSE"}, ["SoundInv", "NullInv", "AbsentInv"], tag="mcstats")
+    ck.cov["states"], ck.cov["transitions"] = mc["distinct"], mc["states"]
+    model_check("MC_Stats", {"MaxLen": 3, "NRank": 3, "SentinelBug": "TRUE"}, ["SoundInv"], tag="mcstatsneg", expect_violation="SoundInv")
+    ck.cov["negative_controls"] = ["MC_Stats with SentinelBug (in-band 'no value yet' marker): SoundInv violated as required"]
+    p = Program("stats:AllKinds", STATS_SCHEMA)
+    build_programs([p])
+    if p.build["status"] != "ok":
+        raise HarnessError("stats schema does not build: " + p.build["detail"])
+    load_schemas([p])
+    pats = export_patterns(3 if q else 4, 3)     # sequences over {null, tok 0..2}
+    poffs = list(range(0, 20, 5 if q else 1))
+    poffs = [(x + ck.seed) % 20 for x in poffs]
+    distinct = set()
+    for pi, pat in enumerate(pats):
+        for poff in poffs:
+            # one record per pattern entry: required <- tok (null -> 0), optional <- tok or nil, repeated <- [tok] or []
+            recs = []
+            for e in pat:
+                t = max(e, 0)
+                opt = [] if e < 0 else [t]
+                recs.append([t] * 7 + [opt] * 8 + [opt] * 4)
+            # and one record carrying the whole pattern in its lists
+            whole = [t for t in pat if t >= 0]
+            recs2 = [[0] * 7 + [[]] * 8 + [whole] * 4]
+            for rr, page in ((recs, 1000), (recs, 2), (recs2, 1000)):
+                if not rr:
+                    continue
+                p.cases.append({"page": page, "codec": CODECS[(pi + poff) % 3], "poff": poff, "ops": ops_of("a" * len(rr) + "w", rr)})
+                ck.add("evaluations")
+            if len(set(pat)) > 1:
+                distinct.add((tuple(pat), poff))
+    # seeded random larger multisets
+    for b in range(20 if q else 200):
+        n = ck.rng.randrange(5, 40)
+        recs = []
+        for _ in range(n):
+            def opt():
+                return [] if ck.rng.random() < 0.3 else [ck.rng.randrange(20)]
+            recs.append([ck.rng.randrange(20) for _ in range(7)] + [opt() for _ in range(8)] +
+                        [[ck.rng.randrange(20) for _ in range(ck.rng.randrange(0, 4))] for _ in range(4)])
+        p.cases.append({"page": ck.rng.choice([3, 8, 1000]), "codec": CODECS[b % 3], "poff": 0, "ops": ops_of("a" * n + "w", recs)})
+        ck.add("evaluations")
+        distinct.add(("rand", b))
+    ck.cov["distinct_nontrivial"] = len(distinct)
+    ck.cov["rule"] = ("pages whose entries follow every pattern over {null, rank 0..2} of length <= %d (TLC ExportPat, %d patterns), concretised "
+                      "for 7 required, 8 optional and 4 repeated columns of every supported type from %d slices of the adversarial value pools "
+                      "(extremes, +-0, +-Inf, NaNs, '', the string '__#NIL#__', byte strings differing in a high byte), each as one page, as pages "
+                      "of 2 and as one list; plus seeded random pages of 5-40 records; non-trivial = the pattern has at least two different entries; "
+                      "distinct by (pattern, pool slice)" % (3 if q else 4, len(pats), len(poffs)))
+    ck.cov["exhaustive"] = False
+    run_programs([p], "c12", timeout=1800)
+    ck.sample({"pattern": pats[len(pats) // 2], "poff": poffs[0], "meaning": "-1 = null, t = pool value number t+poff of the column's type"})
+    judge_programs(ck, [p], ["C12", "HARNESS"], "c12", describe=lambda pr, c: "%s|poff=%d|%s" % (pr.key, c["poff"], json.dumps([o.get("rec") for o in c["ops"] if o["op"] == "add"])[:300]))
+    ck.assumptions += ["the order of each column type (signed, unsigned, IEEE with NaN excluded, bytewise) is computed by ~40 lines of Go in the driver "
+                       "(statsObs/less); TLC receives ranks", "an absent null_count/min/max is never wrong"]
+    ck.finish()
+
+
+CHECKS["C12"] = c12
+
+
+# =========================================================================== reader environment: C08, C10, C11, C09
+def env_files(ck, names, nrec, layouts):
+    """programs of F with a few files each (layout x codec); returns programs with cases lacking 'reads'"""
+    progs = build_programs(fixed_programs(names))
+    ok = usable(progs)
+    if len(ok) != len(progs):
+        raise HarnessError("fixed schema set does not build")
+    load_schemas(ok)
+    recs = export_records([(p.key, p.schema) for p in ok], 2, nrec, ck.seed)
+    for pi, p in enumerate(ok):
+        rr = recs[p.key]["recs"]
+        k = len(rr)
+        for li, (page, hist_fn) in enumerate(layouts):
+            for ci, codec in enumerate(CODECS):
+                p.cases.append({"page": page, "codec": codec, "poff": (ck.seed + pi + li + ci) % 16, "light": True,
+                                "ops": ops_of(hist_fn(k), rec_cycle(rr, ck.seed + li))})
+    return ok
+
+
+LAYOUT_ONE = (1000, lambda k: "a" * k + "w")
+LAYOUT_MULTI = (2, lambda k: "a" * (k - k // 2) + "w" + "a" * (k // 2) + "w")
+
+
+def mc_reader(ck, prop_inv, neg_switch, neg_inv):
+    base = {"NRowGroups": 2, "NCols": 2, "PagesPerChunk": 2, "SingleReadPerPage": "FALSE", "IgnoreReadError": "FALSE",
+            "TrustFooterOnly": "FALSE", "AcceptUnsupported": "FALSE"}
+    r = model_check("MC_Reader", base, prop_inv, workers=8, tag="mcreader")
+    ck.cov["states"], ck.cov["transitions"] = r["distinct"], r["states"]
+    c = dict(base)
+    c[neg_switch] = "TRUE"
+    model_check("MC_Reader", c, [neg_inv], tag="mcreaderneg", expect_violation=neg_inv)
+    ck.cov["negative_controls"] = ["MC_Reader with %s: %s violated as required" % (neg_switch, neg_inv)]
+
+
+def c08():
+    ck = Check("C08", "model_checking")
+    q = ck.quick()
+    mc_reader(ck, ["FragmentationInvariant", "TypeOK"], "SingleReadPerPage", "FragmentationInvariant")
+    ok = env_files(ck, ["AllTypes", "Document", "Person"] if q else None, 6 if q else 12, [LAYOUT_ONE, LAYOUT_MULTI])
+    for p in ok:
+        for c in p.cases:
+            reads = [{"mode": "plain"}]
+            for n in list(range(1, 18)) + [64, 4096]:
+                reads.append({"mode": "chunk", "chunk": n})
+            reads += [{"mode": "chunk", "chunk": 1, "eofdata": True}, {"mode": "chunk", "chunk": 5, "eofdata": True}, {"mode": "eofdata"}]
+            reads += [{"mode": "shortat", "allat": True, "how": "one"}, {"mode": "shortat", "allat": True, "how": "half"}]
+            reads += [{"mode": "rand", "seed": ck.seed * 100 + i} for i in range(5 if q else 40)]
+            c["reads"] = reads
+    run_programs(ok, "c08", timeout=1800)
+    n = d = 0
+    for p in ok:
+        for e in p.events:
+            if e.get("ev") == "Read":
+                n += 1
+                if e["mode"] != "plain":
+                    d += 1
+    ck.cov["evaluations"], ck.cov["distinct_nontrivial"] = n, d
+    ck.cov["rule"] = ("for each file (schemas of F x {one row group, two row groups with pages of 2} x 3 codecs): fixed read chunk sizes 1..17, 64, 4096; "
+                      "data returned together with io.EOF; for EVERY Read call k of the unfragmented run, only call k is short (1 byte; half); seeded "
+                      "random short reads; non-trivial = any fragmenting source; each (file, pattern) is distinct by construction")
+    ck.cov["exhaustive"] = False
+    ck.sample({"file": ok[0].key, "pattern": "only Read call k returns 1 byte, for every k"})
+    ck.sample({"file": ok[-1].key, "pattern": "chunk=7"})
+    judge_programs(ck, ok, ["C08", "HARNESS"], "c08", describe=history_key_cfg)
+    ck.assumptions += ["sources obey the io.Reader contract: 1 <= n <= len(p) bytes per call, optionally n > 0 together with io.EOF at the end"]
+    ck.finish()
+
+
+def c10():
+    ck = Check("C10", "fault_enumeration")
+    q = ck.quick()
+    mc_reader(ck, ["NoSilentCorruption", "TypeOK"], "IgnoreReadError", "NoSilentCorruption")
+    ok = env_files(ck, ["AllTypes", "Document", "Person"] if q else None, 5 if q else 10, [LAYOUT_MULTI] if q else [LAYOUT_ONE, LAYOUT_MULTI])
+    for p in ok:
+        for c in p.cases:
+            reads = [{"mode": "plain"}]
+            for kind in ("zero", "half", "eof", "ueof"):
+                reads.append({"mode": "fault", "allat": True, "kind": kind})
+                if not q or kind == "zero":
+                    reads.append({"mode": "fault", "allat": True, "kind": kind, "sticky": True})
+            c["reads"] = reads
+    run_programs(ok, "c10", timeout=2400)
+    n = d = 0
+    for p in ok:
+        for e in p.events:
+            if e.get("ev") == "Read" and e["mode"] == "fault":
+                n += 1
+                if e["faulted"]:
+                    d += 1
+    ck.cov["evaluations"], ck.cov["distinct_nontrivial"] = n, d
+    ck.cov["rule"] = ("for each file: every index k over ALL Read and Seek calls of the fault-free run x fault kind {error with 0 bytes, error with half "
+                      "the bytes, spurious io.EOF, io.ErrUnexpectedEOF} (one-shot; sticky variants in addition); non-trivial = the injected fault was "
+                      "actually hit by the run; distinct by (file, k, kind, sticky)")
+    ck.cov["exhaustive"] = True
+    ck.sample({"file": ok[0].key, "fault": "Read/Seek call k returns (0, err), every k"})
+    judge_programs(ck, ok, ["C10", "HARNESS"], "c10", describe=history_key_cfg)
+    ck.assumptions += ["acceptable outcomes: constructor error, or Error() != nil after Next returned false, or every delivered row correct and none missing"]
+    ck.finish()
+
+
+def c11():
+    ck = Check("C11", "fault_enumeration")
+    q = ck.quick()
+    mc_reader(ck, ["TruncationRejected", "TypeOK"], "TrustFooterOnly", "TruncationRejected")
+    ok = env_files(ck, ["AllTypes", "Document"] if q else None, 4 if q else 10, [LAYOUT_MULTI] if q else [LAYOUT_ONE, LAYOUT_MULTI])
+    for p in ok:
+        for c in p.cases:
+            c["reads"] = [{"mode": "plain"}, {"mode": "trunc", "alltrunc": True}]
+    run_programs(ok, "c11", timeout=2400, env_extra={"GOMEMLIMIT": "2GiB"})
+    n = 0
+    for p in ok:
+        for e in p.events:
+            if e.get("ev") == "Read" and e["mode"] == "trunc":
+                n += 1
+    ck.cov["evaluations"], ck.cov["distinct_nontrivial"] = n, n
+    ck.cov["rule"] = ("every strict prefix (every length 0..len-1) of every file (schemas of F x layouts x 3 codecs); every prefix is a distinct crash point "
+                      "and non-trivial (the file is invalid by construction)")
+    ck.cov["exhaustive"] = True
+    ck.sample({"file": ok[0].key, "prefixes": "0 .. len-1"})
+    judge_programs(ck, ok, ["C11", "HARNESS"], "c11", describe=history_key_cfg)
+    ck.assumptions += ["'accepted' = no constructor error and Error() == nil once Next returned false"]
+    ck.finish()
+
+
+def c09():
+    ck = Check("C09", "fault_enumeration")
+    q = ck.quick()
+    base = {"MaxPage": 2, "NCols": 2, "MaxOps": 5, "FaultAt": "{" + ",".join(str(i) for i in range(1, 30)) + "}", "EmptyWriteEmitsPages": "FALSE",
+            "FooterSkipsDroppedBytes": "FALSE", "FooterCountsAddedRows": "FALSE", "SwallowSinkError": "FALSE"}
+    r = model_check("MC_Layout", base, ["TypeOK", "FaultReported"], workers=8, tag="mclayoutfault")
+    ck.cov["states"], ck.cov["transitions"] = r["distinct"], r["states"]
+    model_check("MC_Layout", dict(base, SwallowSinkError="TRUE", MaxOps=4), ["FaultReported"], tag="mclayoutswallow", expect_violation="FaultReported")
+    ck.cov["negative_controls"] = ["MC_Layout with SwallowSinkError: FaultReported violated as required"]
+    ok = env_files(ck, None if not q else ["AllTypes", "Document", "Person", "BoolHeavy"], 7, [LAYOUT_ONE, (2, lambda k: "a" * 3 + "w" + "a" * (k - 4) + "w" + "aw")])
+    for p in ok:
+        cases = []
+        for c in p.cases:
+            for how in ("zero", "half"):
+                c2 = dict(c)
+                c2["sinkfault"], c2["faulthow"] = -1, how
+                cases.append(c2)
+        p.cases = cases
+    run_programs(ok, "c09", timeout=1800)
+    n = d = 0
+    for p in ok:
+        for e in p.events:
+            if e.get("ev") == "SinkCall":
+                n += 1
+                if e["hit"]:
+                    d += 1
+    ck.cov["evaluations"], ck.cov["distinct_nontrivial"] = n, d
+    ck.cov["rule"] = ("for each workload (schemas of F x {one batch, three batches with page overflow} x 3 codecs): every k from 1 to the number of sink "
+                      "writes of the fault-free run, failing with (0, err) and with (len/2, err); evaluations = API calls observed, non-trivial = the API "
+                      "call during which write k failed (one per k), distinct by (workload, k, kind)")
+    ck.cov["exhaustive"] = True
+    ck.sample({"workload": ok[0].key, "fault": "k-th sink Write returns (0, err), every k"})
+    judge_programs(ck, ok, ["C09", "HARNESS"], "c09", describe=history_key_cfg)
+    ck.assumptions += ["only the call during which the sink failed is constrained; partial writes without an error are outside the io.Writer contract"]
+    ck.finish()
+
+
+CHECKS.update({"C08": c08, "C09": c09, "C10": c10, "C11": c11})
